@@ -160,6 +160,8 @@ def parse_node(op):
         for item in kv["tcpc"].split("/") if "tcpc" in kv else []:
             k, v = item.split("~")
             v = int(v)
+            if k not in TCP_KEYS:
+                return None
             lo, hi = TCP_KEYS[k]
             if not lo <= v <= hi:
                 return None
@@ -1720,16 +1722,28 @@ def matches_known(k, v):
 
 TRUSTED_NODE = ("node area: real nodes built through ConfigBuilder/Litep2p::new on loopback TCP (adapter /repo/src/verif/node.rs, "
                 "checks/node.py, Model/Node/Wiring.lean, Driver/Node.lean); the registration record is read through guarded "
-                "read accessors (manager fields, ConnectionLimits::verif_config) and a thread-local log written by "
-                "TransportService::new from the constructed value; dynamic operations run in real time (quiescence = no event "
+                "read accessors (manager fields, ConnectionLimits::verif_config, AddressRecord::verif_score, ProtocolSet::verif_keep_alive, "
+                "MemoryStore::verif_config, QueryEngine::verif_factors, HandshakeService::verif_handshake, TcpTransport::verif_config), a "
+                "thread-local log written by TransportService::new from the constructed value and a process-wide log (keyed by the "
+                "local peer id) written by every protocol object at the top of its run() and by Litep2p::new for the TCP transport it "
+                "has just built (the adapter waits up to 4 s for every registered protocol to report); the per-name codec / keep-alive "
+                "answers come from a ProtocolSet built like a connection's (manager.transport_handle().protocol_set()); the yamux "
+                "configuration is observed as its stream limit (parsed from its Debug text) plus 'equal to the one handed in'; dynamic operations run in real time (quiescence = no event "
                 "for 350 ms; 600 ms where the absence of a dial outcome is judged), durations are judged with slack (idle close: not earlier than the configured timeout minus 250 ms "
                 "establishment skew, not later than +1.5 s)")
-ASSUME_NODE = ("node area: loopback addresses 127.0.0.1-127.0.0.4 are usable and port 1 is closed; a wiring defect that only shows "
+ASSUME_NODE = ("node area: loopback addresses 127.0.0.1-127.0.0.4 are usable, TCP ports 1-9 on 127.0.0.1 are closed and the resolver answers "
+               "the name '127.0.0.1' without network access (hickory's IP-literal shortcut); yamux::Config::default() allows 512 streams "
+               "(yamux crate 0.13, outside /repo); the attempt order of a dial is judged with one dial slot only (with more slots the "
+               "failures are reported in completion order); a wiring defect that only shows "
                "with transports other than TCP, with mDNS or with the system DNS configuration is outside (default feature set)")
 RULE_NODE = ("node area (real nodes): 30 random configurations per run (every protocol kind, sizes, fallback names, limits, keep-alive "
              "values incl. the default, 0-3 listen addresses, known addresses of every kind, custom executor, name clashes, no "
-             "transport) whose registration records the wiring model must predict exactly, a malformed stream, and the property's own "
-             "real-time scenario family; a case is non-trivial if a node was built")
+             "transport; max_parallel_dials, every field of the TCP config, notification channel sizes / dialing, ping failures, identify "
+             "version / agent, every kademlia builder setter with zero store bounds) whose registration records — incl. what a connection's "
+             "ProtocolSet answers per main / fallback name and what the constructed transport and protocol objects hold — the wiring model "
+             "must predict exactly, a malformed stream, and the property's own real-time scenario family (C04/C19: sizes on substreams "
+             "negotiated under a fallback name; C10: attempt order of a dial by peer id over DNS + IP addresses with one dial slot; C02, "
+             "C16, C17, C20: static cases only); a case is non-trivial if a node was built")
 
 
 NODE_THEOREMS = {
@@ -1749,7 +1763,8 @@ NODE_THEOREMS = {
 }
 MANIFEST_NODE = (" Wiring (coverage round `node`): {thms} — over the wiring model Model/Node/Wiring.lean (a function from the "
                  "ConfigBuilder calls to the per-protocol registration record, the limits, addresses and identify's protocol list, "
-                 "written from src/lib.rs and src/config.rs), tied to the real ConfigBuilder/Litep2p::new by the node area: real nodes "
+                 "what the protocol / transport builders leave in the constructed objects and what ProtocolSet answers per name, "
+                 "written from src/lib.rs, src/config.rs, the protocol config.rs files and src/protocol/protocol_set.rs), tied to the real ConfigBuilder/Litep2p::new by the node area: real nodes "
                  "built through the public API print their ACTUAL registration record, compared field by field with the model's, and "
                  "run this property's scenarios over loopback TCP in real time under a node-level oracle.")
 
@@ -1786,5 +1801,5 @@ def install(g):
     g["THEOREMS"] = list(g["THEOREMS"]) + [t for t in thms if t not in g["THEOREMS"]]
     m = dict(g["MANIFEST"])
     m["text"] = m["text"] + MANIFEST_NODE.format(thms=", ".join(thms) if thms else "no theorem of its own (the wiring theorems live "
-                                                 "in Props/C05, C06, C08, C09, C11, C13)")
+                                                 "in Props/C02, C04, C05, C06, C08, C09, C10, C11, C13, C16, C17, C19, C20)")
     g["MANIFEST"] = m
